@@ -21,6 +21,9 @@ Verdicts on the implementation's answer `<result> ; <raw state> V <flag> [R <fla
   rootAt_spec          `rootAt(n)` on a valid tree (rooted or not) with node n did not succeed, or the result is
                        not a valid tree rooted at n with the same nodes and the same undirected edge set
                        (same ids, same end points), n its only father-less node
+  terminates           the call did not return within the harness watchdog although the model answers (the harness does not
+                       make the calls on which the model itself runs out of fuel)
+  no_crash             the call killed the harness worker (sanitizer abort, stack overflow, signal)
   rooted_cache         the reported rootedness flag of a DAG is 1 but there is not exactly one father-less node
   keeps_object         `setFather` / `addSon` with an edge object succeeded but the object is not the one of
                        the new link (`getEdgeLinking(father, son)`); `addSon` with a free object, two known nodes and no
@@ -92,6 +95,8 @@ def natsOf (tk : List String) : List Nat := tk.filterMap String.toNat?
 def judgeT (impl : Option (List String)) (isValidQuery : Bool) (extra : List String → T → Option String) : String × Option T :=
   match impl with
   | none => ("-", none)
+  | some ["hang"] => ("FAIL:terminates", none)
+  | some [c] => if c.startsWith "crash:" then ("FAIL:no_crash", none) else ("FAIL:parse", none)
   | some _ =>
     match splitImpl impl with
     | some (res, stt) =>
@@ -261,6 +266,8 @@ def stepT (st : St) (op : List String) (impl : Option (List String)) : St × Str
 def judgeD (impl : Option (List String)) (isValidQuery : Bool) (extra : List String → D → Option String) : String × Option D :=
   match impl with
   | none => ("-", none)
+  | some ["hang"] => ("FAIL:terminates", none)
+  | some [c] => if c.startsWith "crash:" then ("FAIL:no_crash", none) else ("FAIL:parse", none)
   | some _ =>
     match splitImpl impl with
     | some (res, stt) =>
@@ -360,6 +367,8 @@ def showW : TW.WRes → String
 def judgeW (impl : Option (List String)) (isValidQuery : Bool) (extra : List String → TW → Option String) : String × Option TW :=
   match impl with
   | none => ("-", none)
+  | some ["hang"] => ("FAIL:terminates", none)
+  | some [c] => if c.startsWith "crash:" then ("FAIL:no_crash", none) else ("FAIL:parse", none)
   | some _ =>
     match splitImpl impl with
     | some (res, stt) =>
